@@ -52,9 +52,9 @@ PROPS['C05'] = {
     'kani': [],
     'oracle': 'C05',
     'decided': ['Occ::new / Occ::get exact for every sampling rate (same regions as C04/occ, verified again inside this unit), less / bwt exact (unit C04/less)', 'FMIndex::{new, occ, less, bwt}: the concrete index implements the trait contracts with spec_occ = number of a in bwt[0..=r] and spec_less = number of smaller symbols, and the counting laws (bounds, monotone, 1-Lipschitz) are PROVED of it', 'FMIndexable::backward_search (the real default method) returns Complete/Partial/Absent exactly as defined by the LF recurrence l\' = less(a)+occ(l-1,a), r\' = less(a)+occ(r,a)-1 over the pattern read right to left; no arithmetic underflow given less(a) >= 1 for pattern symbols'],
-    'decided_extra': ['the FM-index theorem for single-sentinel texts (unit C04/invert, theorem_backward_search, stated over the SAME recurrence `bs` the real loop is proved against): after consuming the last k symbols of a sentinel-free pattern the recurrence interval holds exactly the suffix-array rows of the suffixes starting with those k symbols, and is empty exactly when they do not occur - so Complete/Partial/Absent and the reported intervals mean occurrence sets'],
+    'decided_extra': ['SampledSuffixArray::get resolves row i to pos[i] for every single-sentinel text it represents (unit C04/invert)', 'the FM-index theorem for single-sentinel texts (unit C04/invert, theorem_backward_search, stated over the SAME recurrence `bs` the real loop is proved against): after consuming the last k symbols of a sentinel-free pattern the recurrence interval holds exactly the suffix-array rows of the suffixes starting with those k symbols, and is empty exactly when they do not occur - so Complete/Partial/Absent and the reported intervals mean occurrence sets'],
     'undecided': ['the FM-index theorem for texts with several sentinels (the suffix order among sentinel suffixes is positional there; the machine-checked theorem covers one sentinel)',
-                  'Interval::occ and sampled suffix array resolution (iterator adapter chain)', 'owned / Arc-shared component instantiations (the proof instantiates the components at shared references)'],
+                  'Interval::occ (iterator adapter chain over the positions); SuffixArray::sample (the construction of the sampled array: float capacity, HashMap inserts)', 'sampled suffix arrays over multi-sentinel texts', 'owned / Arc-shared component instantiations (the proof instantiates the components at shared references)'],
     'trusted': ['bytecount::count and Alphabet stubs (as in C04)', 'Borrow::borrow on a reference is the identity (rule RBW)'],
     'level_text': 'Verus proves the real backward_search loop against the textbook LF recurrence (result cases, matched length, no underflow) for every implementor satisfying the stated counting laws; the step from the recurrence to occurrence sets is the FM-index theorem, machine-checked here for single-sentinel texts (assumed for multi-sentinel texts).',
     'level_note': 'Level other: proof of the search loop against the recurrence; occurrence semantics by the machine-checked LF/FM theorem (single sentinel) and C04 for the tables.',
@@ -212,15 +212,16 @@ PROPS['C02'] = {
 
 PROPS['C03'] = {
     'level': 'other',
-    'units': ['C03/lcp', 'C18/smallints', 'C04/less', 'C04/occ'],
+    'units': ['C03/lcp', 'C04/invert', 'C18/smallints', 'C04/less', 'C04/occ'],
     'kani': [],
     'oracle': 'C03',
     'decided': ['lcp() (Kasai): GIVEN a sorted suffix array of a single-sentinel text of length >= 2, the LCP array holds -1 at both ends and the TRUE longest-common-prefix length of every pair of adjacent suffixes (suffix-order theory: lcp characterisation, antisymmetry, transitivity, sandwich lemma, Kasai lemma - all proved; termination of the scan proved)',
                 'shortest_unique_substrings (the real generic function, any SuffixArray implementor characterised by its view): GIVEN a sorted suffix array and its LCP array, entry p is Some(l) exactly for the shortest substring starting at p that occurs nowhere else in the text (l = 1 + max of the two adjacent LCP values, by the two sandwich lemmas), and None exactly when no substring starting at p is unique; no cast or arithmetic failure for texts of at least two symbols',
+                'SampledSuffixArray::{get, len} (unit C04/invert, components instantiated at references): for EVERY single-sentinel text and sorted suffix array the sampled structure represents (every s-th row sampled, sentinel rows cached), get(i) == Some(pos[i]) for i < n and None otherwise; the LF walk terminates (the text position strictly decreases) - by the machine-checked LF-mapping theorem',
                 'the LCP-array container SmallInts<i8, isize> behaves as a plain Vec<isize> for every value incl. exactly 127, larger and negative (unit shared with C18)',
                 'bwt/less/Occ (used by the sampled suffix array walk, every Occ sampling rate) are exact (units shared with C04)'],
     'undecided': ['SA-IS construction (Sais::{construct, calc_lms_pos, sort_lms_suffixes, calc_pos}): that the array IS sorted - induced sorting correctness is out of reach of the contracts built here (the lcp proof takes sortedness as a precondition)',
-                  'SampledSuffixArray::get walk', 'transform_text / sentinel_count (closure adapters, generic casts)'],
+                  'transform_text / sentinel_count (closure adapters, generic casts)'],
     'trusted': ['SmallInts stub inside C03/lcp carries exactly the from_elem/set/get contracts proved in C18/smallints', 'SuffixArray trait reduced to get/len with the obvious view contract (RawSuffixArray = Vec<usize> implements it by slice access: not verified here)', 'cmp::min std spec', 'as C18 / C04 for the shared units'],
     'level_text': 'Verus proves the LCP computation (Kasai) and the shortest-unique-substring table correct for every sorted suffix array of a single-sentinel text, plus the containers and tables the module builds on; that SA-IS produces the sorted array is NOT decided by contracts (bounded stand-in only).',
     'level_note': 'Level other (partial): LCP and shortest unique substrings given sortedness, containers, tables. Suffix sorting itself undecided.',
